@@ -92,6 +92,12 @@ class Speller:
         w, n = it["w"], it.get("n", 0)
         if s in ("v", "p", "f", "g", "m", "fld", "tag"):
             return self.named(s, w, n)
+        if s in ("vbad", "fbad"):
+            key = (s, w, n)
+            if key not in self.memo:
+                base = self.ident(w - 1)
+                self.memo[key] = base[:1] + self.r.choice(string.ascii_uppercase) + base[1:]
+            return self.memo[key]
         if s == "guard":
             return self.guard
         if s == "txt":
